@@ -104,6 +104,10 @@ impl FileTransfer {
 
         if self.state == FileTransferState::Started || self.state == FileTransferState::MissingStart
         {
+            if package_nr > 0 && package_nr < self.next_package {
+                // duplicate of an already received package: tolerated and ignored
+                return false;
+            }
             self.recvd_packages += 1;
             if package_nr == self.next_package {
                 // package contains data?
